@@ -214,6 +214,21 @@ def depth_summaries_hold(funcs):
     return writers
 
 
+def replay_depth_scenarios(func, log):
+    """Run every native return-site scenario of `func`; returns (list of unbalanced scenario names, raw output) or (None, error)."""
+    st, out = native.call("debug", "frame_depth_all", func, log=log)
+    if st != "ok":
+        return None, f"{st} {out}"
+    bad = []
+    for name, b, a, k in re.findall(r"\[(\w+) before=(\d+) after=(\d+) kind=(\w+)\]", out):
+        want = {"frame": 1, "result": 0, "return": -1}[k]
+        if int(a) - int(b) != want:
+            bad.append(f"{name} ({b}->{a}, {k})")
+    if "panicked" in out:
+        bad += [m + " (panicked)" for m in re.findall(r"\[(\w+) panicked\]", out)]
+    return bad, out
+
+
 def run_depth_balance(tier, log, seed):
     text = mir.dump("revm", log)
     funcs = mir.parse_functions(text)
@@ -236,23 +251,17 @@ def run_depth_balance(tier, log, seed):
         if v != "sat":
             inconcl.append(f"{suffix}: {info}")
             continue
-        # candidate path -> native scenario
+        # candidate path -> the fixed set of native scenarios of this function, one per return site; any unbalanced one is the replay
         irs = info["instruction_results_on_path"]
-        key = (irs[-1] if irs else "frame")
-        st, out = native.call("debug", "frame_depth", suffix, key, log=log)
-        desc = (f"{suffix}: path {'>'.join(info['path'][-6:])} returns a result carrying InstructionResult::{key} with net journal depth "
-                f"{info['net_depth']:+d} (checkpoint opened, never committed or reverted)")
-        if st == "ok":
-            m = re.match(r"before=(\d+) after=(\d+) kind=(\w+)", out)
-            if m and int(m.group(2)) - int(m.group(1)) != (1 if m.group(3) == "frame" else 0):
-                failures.append(dict(id=f"{suffix}-{key}", reproduced=True,
-                                     description=desc + f" | native: depth {m.group(1)} -> {m.group(2)} returning {m.group(3)}"))
-            elif m:
-                failures.append(dict(id=f"{suffix}-{key}", reproduced=False, description=desc + f" | native scenario balanced: {out}"))
-            else:
-                inconcl.append(f"{suffix}: native scenario output not understood: {out}")
+        key = (irs[-1] if irs else "no result constant on the path")
+        desc = (f"{suffix}: path {'>'.join(info['path'][-6:])} ({key}) returns with net journal depth {info['net_depth']:+d} "
+                f"(checkpoints opened != committed/reverted)")
+        bad, detail = replay_depth_scenarios(suffix, log)
+        if bad is None:
+            inconcl.append(f"{suffix}: native scenarios failed: {detail}")
         else:
-            inconcl.append(f"{suffix}: no native scenario for candidate path ending in {key}: {st} {out}")
+            failures.append(dict(id=f"{suffix}-{(bad or [key])[0]}", reproduced=bool(bad),
+                                 description=desc + (f" | native, unbalanced scenario(s): {', '.join(bad)}" if bad else f" | every native scenario is balanced: {detail[:300]}")))
     for pat, exp in rets:
         cands = [f for n, fl in funcs.items() for f in fl if re.search(pat + "$", n)]
         if len(cands) != 1:
@@ -263,7 +272,13 @@ def run_depth_balance(tier, log, seed):
         samples.append(f"{nm}: {info.get('blocks')} blocks, {info.get('returns')} return(s), net depth must be {exp}: {v}")
         log(f"[e3] {samples[-1]}")
         if v == "sat":
-            failures.append(dict(id=f"{nm}-unbalanced", description=f"{nm}: a path returns with net journal depth {info.get('net_depth')} (expected {exp}); path {info.get('path')}"))
+            bad, detail = replay_depth_scenarios(nm, log)
+            desc = f"{nm}: a path returns with net journal depth {info.get('net_depth')} (expected {exp}); path {'>'.join(info.get('path', [])[-8:])}"
+            if bad is None:
+                inconcl.append(f"{nm}: native scenarios failed: {detail}")
+            else:
+                failures.append(dict(id=f"{nm}-{(bad or ['unbalanced'])[0]}", reproduced=bool(bad),
+                                     description=desc + (f" | native, unbalanced scenario(s): {', '.join(bad)}" if bad else f" | every native scenario is balanced: {detail[:300]}")))
         elif v != "unsat":
             inconcl.append(f"{nm}: {info}")
     # constant of the depth limit
